@@ -232,6 +232,15 @@ func runWu(c wuCase, clk *vclock.Clock) wuObs {
 	if c.Throttling {
 		rule.ControlBehavior, rule.MaxQueueingTimeMs = flow.Throttling, c.MaxQMs
 	}
+	if c.ID%2 == 0 && c.ID >= wuBase+wuWitN {
+		// fields a warm-up rule does not use (every second generated case): the memory-adaptive parameters and, for a
+		// Reject rule, the queueing limit.  The model does not know them: nothing may change.
+		rule.LowMemUsageThreshold, rule.HighMemUsageThreshold = 3, 1
+		rule.MemLowWaterMarkBytes, rule.MemHighWaterMarkBytes = 1024, 2048
+		if !c.Throttling {
+			rule.MaxQueueingTimeMs = uint32(c.ID % 977)
+		}
+	}
 	if _, err := flow.LoadRules([]*flow.Rule{rule}); err != nil {
 		panic(err)
 	}
